@@ -521,6 +521,12 @@ def g_dist(rng):
             "dtype": rng.choice(["float64", "float32"]), "out": rng.choice(["none", "nan", "ff", "zeros", "big"])}
 
 
+def g_dist_int(rng):
+    p = g_dist(rng)
+    p["dtype"] = rng.choice(["int64", "int32"])
+    return p
+
+
 def b_dist(p):
     return {"X": np.array(p["X"], dtype=p["dtype"]), "y": np.array(p["y"], dtype=p["dtype"])}
 
@@ -555,9 +561,10 @@ def c_dist_noout_vs_out(a, p):
     for name in ("euclidean", "manhattan", "hamming"):
         fn = getattr(libdist, name)
         n = len(a["X"])
+        X, y = (a["X"].astype(np.int64), a["y"].astype(np.int64)) if name == "hamming" else (a["X"], a["y"])
         poisoned = np.full(n, np.nan)
-        fn(a["X"], a["y"], out=poisoned)
-        plain = np.asarray(fn(a["X"], a["y"])).reshape(-1)
+        fn(X, y, out=poisoned)
+        plain = np.asarray(fn(X, y)).reshape(-1)
         res.append([plain, poisoned, bool(np.array_equal(plain, poisoned))])
     return res
 
@@ -650,12 +657,12 @@ ROUTINES = {
     "kcenters": (g_cluster, b_cluster, c_kcenters),
     "libdist.euclidean": (g_dist, b_dist, _dist_call("euclidean")),
     "libdist.manhattan": (g_dist, b_dist, _dist_call("manhattan")),
-    "libdist.hamming": (g_dist, b_dist, _dist_call("hamming")),
+    "libdist.hamming": (g_dist_int, b_dist, _dist_call("hamming")),
     "libdist.out_vs_noout": (g_dist, b_dist, c_dist_noout_vs_out),
     "RaggedArray.ops": (g_ra, b_ra, c_ra),
 }
 # routines whose inputs are built to contain cells the masked operations skip
-MASKED_ROUTINES = {"shannon_entropy", "mutual_information", "mi_matrix", "weighted_mi"}
+MASKED_ROUTINES = {"shannon_entropy", "mutual_information", "weighted_mi"}
 WEIGHT = {"shannon_entropy": 3, "mutual_information": 3, "weighted_mi": 2, "mi_matrix": 2, "RaggedArray.ops": 3,
           "libdist.euclidean": 2, "libdist.manhattan": 2, "libdist.hamming": 2}
 
@@ -987,9 +994,15 @@ def _has_masked_out(c):
     if n == "mutual_information":
         return any(sum(sum(row) for row in blk) == 0 for fr in p["jc"] for blk in fr)
     if n == "weighted_mi":
-        return True      # product-of-marginals table always has zero cells when a state is unvisited; checked by tag below
-    if n == "mi_matrix":
-        return True
+        # cells of the product-of-marginals table are zero (masked out) when some feature never visits, with positive
+        # weight, one of the max_n_fstates states
+        feats, w = p["features"], p["w"]
+        nmax = p["n"] if p["given_states"] else max(max(r) for r in feats) + 1
+        for k in range(len(feats[0])):
+            seen = {r[k] for r, wi in zip(feats, w) if wi > 0}
+            if any(u not in seen for u in range(nmax)):
+                return True
+        return False
     return False
 
 
